@@ -96,7 +96,7 @@ func classifyBytes(b []byte) (p *spec.Parsed, nontrivial bool, labels []string) 
 }
 
 func TestBuiltStreams(t *testing.T) {
-	harness.Rapid(t, harness.N(8000, 16*30000), func(t *rapid.T) {
+	harness.Rapid(t, harness.N(8000, 16*60000), func(t *rapid.T) {
 		b, want, open := gen.Stream(t, gen.StreamCfg{AllowOpen: true})
 		c := BuiltCase{Bytes: b, Want: want}
 		p, _, labels := classifyBytes(b)
@@ -120,7 +120,7 @@ func bucket(n int) int {
 
 func TestMutatedStreams(t *testing.T) {
 	all := corpus.All()
-	harness.Rapid(t, harness.N(10000, 16*40000), func(t *rapid.T) {
+	harness.Rapid(t, harness.N(10000, 16*80000), func(t *rapid.T) {
 		var base, other []byte
 		if rapid.Bool().Draw(t, "fromcorpus") {
 			base = all[rapid.IntRange(0, len(all)-1).Draw(t, "file")].Data
